@@ -75,7 +75,7 @@ struct C08 : Harness {
                 return p;
             }
             HistGen g;
-            g.o.invalid = false; g.o.lifecycle = false; g.o.midstream = true; g.o.inbetween = 25; g.o.loose_tweak = true;
+            g.o.invalid = false; g.o.lifecycle = false; g.o.midstream = true; g.o.inbetween = 25; g.o.loose_tweak = true; g.o.max_rep = 300;
             int kind = *rc::gen::element((int)C128, (int)C128, (int)C64, (int)CM, (int)P128, (int)P64, (int)PM);
             g.add_slot(kind, *rc::gen::elementOf(backends_for(kind)));
             int n = *irange(3, 16);
